@@ -42,6 +42,16 @@ def main():
     rec = {"name": name, "property": prop, "needs": needs, "ran": []}
 
     rc, diff = sh("git diff", cwd=wt)
+    if not diff.strip() and (out / "patch.diff").exists():
+        # two-change rounds leave the worktree clean: apply the delivered patch
+        rc, o = sh(f"git apply {out / 'patch.diff'}", cwd=wt)
+        if rc != 0:
+            print("REJECT: delivered patch does not apply to the clean worktree:", o)
+            return 1
+        rc, diff = sh("git diff", cwd=wt)
+        applied_here = True
+    else:
+        applied_here = False
     (out / "patch.diff").write_text(diff)
     rec["changed_files"] = [l[6:] for l in diff.splitlines() if l.startswith("+++ b/")]
     rec["changed_lines"] = sum(1 for l in diff.splitlines() if (l.startswith("+") or l.startswith("-")) and not l.startswith(("+++", "---")))
@@ -99,6 +109,8 @@ def main():
     rec["detected"] = any(v["rc"] == 1 for v in fired.values())
     print("checks fired:", json.dumps(fired, indent=1)[:1500])
 
+    if applied_here:
+        sh("git checkout -- .", cwd=wt)  # leave the worktree clean for the sibling change
     dst = VERIF / "seeded" / name
     dst.mkdir(parents=True, exist_ok=True)
     shutil.copy(out / "patch.diff", dst / "patch.diff")
